@@ -35,37 +35,6 @@ pub fn combo(i: usize) -> ColumnOptions {
 	}
 }
 
-pub fn combo_index(o: &ColumnOptions) -> usize {
-	let mut f = 0usize;
-	if o.preimage {
-		f |= 1
-	}
-	if o.uniform {
-		f |= 2
-	}
-	if o.ref_counted {
-		f |= 4
-	}
-	if o.btree_index {
-		f |= 8
-	}
-	if o.multitree {
-		f |= 16
-	}
-	if o.append_only {
-		f |= 32
-	}
-	if o.allow_direct_node_access {
-		f |= 64
-	}
-	let c = match o.compression {
-		CompressionType::NoCompression => 0,
-		CompressionType::Lz4 => 1,
-		CompressionType::Snappy => 2,
-	};
-	c * 128 + f
-}
-
 /// Our own statement of the documented validity rules (options.rs `is_valid`), without the
 /// library's error logging. Cross-checked against `ColumnOptions::is_valid` in part (a).
 pub fn is_valid(o: &ColumnOptions) -> bool {
